@@ -8,6 +8,7 @@ from spverif.ref import pus as P
 from spverif.ref import ccsds as H
 
 SCRIBBLE = True
+THOROUGH_SCALE = 12
 ID = "C15"
 LEVEL = "exploration"
 SHARDS = {"quick": 1, "thorough": 16}
